@@ -1,4 +1,4 @@
-import Rivaas.Lemmas.RadixBuild
+import Rivaas.Lemmas.RadixDispatch
 /-
 C01 — Route dispatch is sound, complete and priority-respecting.
 
@@ -12,195 +12,6 @@ patterns are in the vocabulary of the property, and every request path that star
 -/
 namespace Rivaas.C01
 open Rivaas.Route Rivaas.Radix Rivaas.Match Rivaas.MatchL Rivaas.RadixL
-
-/-! ### from the Boolean side conditions of the driver to the hypotheses of the lemmas -/
-
-theorem lemma_normalR (R : List Route) (h : normal R = true) : NormalR R := by
-  intro r hr
-  simp only [normal, List.all_eq_true] at h
-  have := h r hr
-  simp only [normalRoute, Bool.and_eq_true, decide_eq_true_eq, List.all_eq_true] at this
-  refine ⟨parsePattern_normal _ _ this.1, ?_⟩
-  intro c hc
-  have := this.2 c hc
-  exact List.contains_iff_mem.mp this
-
-theorem lemma_methods (script : List Reg) : ∀ (i : Nat) (R : List Route), specRoutesFrom i script = some R →
-    ∀ r ∈ R, ∃ g ∈ script, r.method = g.method := by
-  induction script with
-  | nil =>
-    intro i R h r hr
-    simp only [specRoutesFrom, Option.some.injEq] at h
-    subst h; simp at hr
-  | cons g gs ih =>
-    intro i R h r hr
-    simp only [specRoutesFrom] at h
-    cases hp : parsePattern (g.groups.foldr (· ++ ·) g.path) with
-    | none => simp [hp] at h
-    | some p =>
-      cases hrs : specRoutesFrom (i + 1) gs with
-      | none => simp [hp, hrs] at h
-      | some rest =>
-        simp only [hp, hrs, Option.some.injEq] at h
-        subst h
-        simp only [List.mem_cons] at hr
-        rcases hr with rfl | hr
-        · exact ⟨g, by simp, rfl⟩
-        · obtain ⟨g', hg', hm⟩ := ih (i + 1) rest hrs r hr
-          exact ⟨g', by simp [hg'], hm⟩
-
-/-- one method tree of the built router, looked up -/
-def lookupM (sat : Nat → Bytes → Bool) (r : Router) (m path : Bytes) : Option (Leaf × Ctx) :=
-  (treeOf r m).bind fun t => okOf (getRoute sat t path Ctx.fresh)
-
-theorem lemma_pick_isSome (l : List Route) : (pick none l).isSome = !l.isEmpty := by
-  cases l with
-  | nil => rfl
-  | cons a rest => simp [pick, pick_some_isSome]
-
-theorem lemma_cands_method (sat : Nat → Bytes → Bool) (R : List Route) (m : Bytes) (p : RPath)
-    (h : R.filter (·.method = m) = []) : cands sat R m p = [] := by
-  unfold cands
-  apply List.filter_eq_nil_iff.mpr
-  intro r hr hc
-  simp only [decide_eq_true_eq] at hc
-  have : r ∈ R.filter (·.method = m) := List.mem_filter.mpr ⟨hr, by simp [hc.1]⟩
-  rw [h] at this; simp at this
-
-/-- **one method tree against the reference choice** -/
-theorem lemma_lookupM (sat : Nat → Bytes → Bool) (noRoute : Bool) (script : List Reg) (R : List Route)
-    (hR : specRoutes script = some R) (hN : normal R = true) (hstd : ∀ g ∈ script, g.method ∈ stdMethods)
-    (m path : Bytes) (hp : path.head? = some '/')
-    (hS : dShadow1 R m (cutAny path) = false) (hNm : dNames1 R m (cutAny path) = false)
-    (hC : dCfall1 sat R m (cutAny path) = false) :
-    lookupM sat (build noRoute script) m path =
-      (refRoute sat R m (cutAny path)).map fun r =>
-        (leafOf r, pushAll Ctx.fresh ((routeMatch sat r (cutAny path)).getD [])) := by
-  unfold lookupM
-  by_cases hm : m ∈ stdMethods
-  · rw [treeOf_build noRoute script R hR m hm]
-    by_cases hf : R.filter (·.method = m) = []
-    · simp only [hf, if_true, Option.bind_none]
-      have : refRoute sat R m (cutAny path) = none := by
-        unfold refRoute; rw [lemma_cands_method sat R m _ hf]; rfl
-      rw [this]; rfl
-    · simp only [hf, if_false, Option.bind_some]
-      exact getRoute_ref sat R (lemma_normalR R hN) m path hp hS hNm hC
-  · have ht : treeOf (build noRoute script) m = none := by simp [treeOf, hm]
-    rw [ht]
-    have hf : R.filter (·.method = m) = [] := by
-      apply List.filter_eq_nil_iff.mpr
-      intro r hr hc
-      simp only [decide_eq_true_eq] at hc
-      obtain ⟨g, hg, hgm⟩ := lemma_methods script 0 R hR r hr
-      rw [← hc, hgm] at hm
-      exact hm (hstd g hg)
-    have : refRoute sat R m (cutAny path) = none := by
-      unfold refRoute; rw [lemma_cands_method sat R m _ hf]; rfl
-    rw [this]; rfl
-
-
-theorem lemma_serve_lookup (sat : Nat → Bytes → Bool) (r : Router) (req : Req) :
-    serve sat r req =
-      match lookupM sat r req.method req.path with
-      | some (lf, ctx) => served lf ctx req
-      | none => notFound sat r req := by
-  unfold serve lookupM okOf
-  cases treeOf r req.method with
-  | none => rfl
-  | some t =>
-    simp only [Option.bind_some]
-    cases hg : getRoute sat t req.path Ctx.fresh with
-    | mk a b =>
-      cases a with
-      | none => rfl
-      | some lf => rfl
-
-theorem lemma_pick_mem (l : List Route) (r : Route) (h : pick none l = some r) : r ∈ l := by
-  have hgen : ∀ (l : List Route) (cur : Option Route), pick cur l = some r → cur = some r ∨ r ∈ l := by
-    intro l
-    induction l with
-    | nil => intro cur h; left; simpa [pick] using h
-    | cons d ds ih =>
-      intro cur h
-      cases cur with
-      | none =>
-        simp only [pick] at h
-        rcases ih _ h with h1 | h1
-        · right; injection h1 with h1; simp [h1]
-        · right; simp [h1]
-      | some c =>
-        simp only [pick] at h
-        split at h
-        · rcases ih _ h with h1 | h1
-          · left; exact h1
-          · right; simp [h1]
-        · rcases ih _ h with h1 | h1
-          · right; injection h1 with h1; simp [h1]
-          · right; simp [h1]
-  rcases hgen l none h with h1 | h1
-  · cases h1
-  · exact h1
-
-/-- a hit in the per-tree table of static routes is a hit of `getRoute` -/
-theorem lemma_compiledStatic_sub (sat : Nat → Bytes → Bool) (R : List Route) (hR : NormalR R) (m path : Bytes)
-    (hp : path.head? = some '/') (h : compiledStatic (treeFor R m) path = true) :
-    (getRoute sat (treeFor R m) path Ctx.fresh).1.isSome = true := by
-  have hNP : ∀ r ∈ R, NormalPat r.text r.pat := fun r hr => (hR r hr).1
-  rw [treeFor_char R hNP m] at h ⊢
-  unfold compiledStatic at h
-  simp only at h
-  have hpne : path ≠ [] := by intro e; rw [e] at hp; simp at hp
-  by_cases hroot : path = ['/']
-  · exfalso
-    subst hroot
-    unfold staticsOf at h
-    rw [getStatic_fold] at h
-    have : lastSome (fun r : Route => if r.text = ['/'] then some (leafOf r) else none)
-        (R.filter fun r => r.method = m && !inTree r) = none := by
-      apply lastSome_none
-      intro r hr
-      have hr' := List.mem_filter.mp hr
-      simp only [Bool.and_eq_true, decide_eq_true_eq, Bool.not_eq_true'] at hr'
-      obtain ⟨_, hne⟩ := notInTree r hr'.2.2
-      have hn := hNP r hr'.1
-      have := (render_ne r.pat hne hn.segs).1
-      rw [← hn.text] at this
-      simp [this]
-    rw [this] at h
-    simp [getStatic] at h
-  · have hnr : ¬ (path = ['/'] ∨ path = []) := by intro h; rcases h with h | h <;> contradiction
-    cases hs : getStatic path (staticsOf R m) with
-    | none => rw [hs] at h; simp at h
-    | some lf => simp [getRoute, getRouteGen, hnr, hs]
-
-theorem lemma_allowed (sat : Nat → Bytes → Bool) (noRoute : Bool) (script : List Reg) (R : List Route)
-    (hR : specRoutes script = some R) (hN : normal R = true) (path : Bytes) (hp : path.head? = some '/') :
-    allowedMethods sat (build noRoute script) path =
-      stdMethods.filter fun m => (lookupM sat (build noRoute script) m path).isSome := by
-  unfold allowedMethods
-  apply List.filter_congr
-  intro m hm
-  unfold lookupM okOf
-  rw [treeOf_build noRoute script R hR m hm]
-  by_cases hf : R.filter (·.method = m) = []
-  · simp [hf]
-  · simp only [hf, if_false, Option.bind_some, Option.isSome_map]
-    cases hg : (getRoute sat (treeFor R m) path Ctx.fresh).1.isSome with
-    | true => simp
-    | false =>
-      simp only [Bool.false_or]
-      cases hc : compiledStatic (treeFor R m) path with
-      | false => rfl
-      | true =>
-        have := lemma_compiledStatic_sub sat R (lemma_normalR R hN) m path hp hc
-        rw [hg] at this; exact absurd this (by simp)
-
-theorem lemma_mem_methodsOf (req : Req) (m : Bytes) (h : m = req.method ∨ m ∈ stdMethods) : m ∈ methodsOf req := by
-  unfold methodsOf
-  rcases h with h | h
-  · simp [h]
-  · simp [h]
 
 /-- **C01, equality form.** For every script of the vocabulary, every constraint table and every
 request whose path starts with `/`: unless the request falls into one of the recorded classes
